@@ -13,6 +13,8 @@ Cells == {[ty |-> "PlainTime", t |-> t, p |-> p] : t \in RTimes, p \in RPrecs}
          \cup {[ty |-> "ZonedDateTime", i |-> i, tz |-> z, p |-> p] : i \in RInstants, z \in RZones, p \in RPrecs}
          \cup {[ty |-> "PlainTime", t |-> t, p |-> -2, viaPrec |-> TRUE] : t \in RTimes} \cup {[ty |-> "Instant", i |-> i, p |-> -2, viaPrec |-> TRUE] : i \in RInstants}
          \cup {[ty |-> "PlainDateTime", d |-> d, t |-> t, p |-> -2, viaPrec |-> TRUE] : d \in RDates, t \in RTimes}
+         \* (a duration has no minute precision, however it is asked for)
+         \cup {[ty |-> "Duration", D |-> D, p |-> -2, viaPrec |-> TRUE] : D \in RDurs}
          \* smallestUnit together with a disagreeing digit count
          \cup {[ty |-> "PlainTime", t |-> t, p |-> p, both |-> TRUE] : t \in RTimes, p \in RPrecs \cap {-2, 0, 3, 6, 9}}
          \cup {[ty |-> "Instant", i |-> i, p |-> p, both |-> TRUE] : i \in RInstants, p \in RPrecs \cap {-2, 0, 3, 6, 9}}
